@@ -726,6 +726,34 @@ def prove_changes(src_root, ex: Explorer):
                   and any(v is d for v in events[0].attrs.values()), 'the change must be announced (the transfer manager re-evaluates the uploads on this event)')
     ex.run(update, 'update-directory')
 
+    def detect(ctx: Ctx):
+        """UserManager._management_job (the poll that turns an edit of settings.users.friends / blocked into the change events): a
+        difference between the live collections and the remembered ones is announced, and what is remembered afterwards is a COPY of the
+        live collections - the user edits them in place, an alias would compare equal for ever after"""
+        it = mk(src_root, ctx)
+        case = ['friend-added', 'friend-removed', 'blocked', 'unblocked', 'flags-changed', 'nothing'][ctx.choose(6, 'change')]
+        BF = cls(it, UMODEL, 'BlockingFlag')
+        up = [m for m in BF.enum_members if m.name == 'UPLOADS'][0]
+        sh = [m for m in BF.enum_members if m.name == 'SHARES'][0]
+        old_f, old_b = {'alice'}, {'bob': up}
+        new_f = {'friend-added': {'alice', 'carol'}, 'friend-removed': set()}.get(case, {'alice'})
+        new_b = {'blocked': {'bob': up, 'mallory': up}, 'unblocked': {}, 'flags-changed': {'bob': sh}}.get(case, {'bob': up})
+        users = Stub('users', friends=new_f, blocked=new_b)
+        context = Stub('context', friends=set(old_f), blocked=dict(old_b))
+        events = []
+        bus = Stub('bus', emit=Recorder('emit', fn=lambda it2, a, k: events.append(a[0]), is_async=True))
+        um = new(it, 'user.manager', 'UserManager', _settings=Stub('settings', users=users), _event_bus=bus)
+        run(it, it.getattr(um, '_management_job'), context)
+        names = sorted(e.cls.name for e in events)
+        want = {'friend-added': ['FriendListChangedEvent'], 'friend-removed': ['FriendListChangedEvent'], 'blocked': ['BlockListChangedEvent'],
+                'unblocked': ['BlockListChangedEvent'], 'flags-changed': ['BlockListChangedEvent'], 'nothing': []}[case]
+        ctx.prove(f'C08.changes.detected[{case}]', names == want, f'announced {names}, expected {want}')
+        cf, cb = context.attrs['friends'], context.attrs['blocked']
+        ctx.prove(f'C08.changes.remembers-a-copy[{case}]', cf == new_f and cb == new_b and cf is not new_f and cb is not new_b,
+                  'the remembered friends / block list must equal the live ones and be COPIES of them (the live collections are edited in place: '
+                  'an alias hides every later change)')
+    ex.run(detect, 'change-detection')
+
     def wiring(ctx: Ctx):
         """the three change events request a SHARES_CHANGE management cycle"""
         it = mk(src_root, ctx)
@@ -865,5 +893,5 @@ def run_item(src_root, item, tier):
                           f'{SM}:SearchManager._query_shares_and_reply', f'{TM}:TransferManager._on_peer_transfer_queue',
                           f'{TM}:TransferManager._on_peer_transfer_request', f'{TM}:TransferManager._add_upload',
                           f'{TM}:TransferManager._evaluate_aborted_state', f'{TM}:TransferManager.manage_shares_changed',
-                          f'{TM}:TransferManager._management_job', f'{TM}:TransferManager.request_management_cycle', f'{MGR}:SharesManager.update_shared_directory'])
+                          f'{TM}:TransferManager._management_job', f'{TM}:TransferManager.request_management_cycle', 'user.manager:UserManager._management_job', f'{MGR}:SharesManager.update_shared_directory'])
     return res
